@@ -227,6 +227,7 @@ fn main() {
         Some("authtable") => authtable(),
         Some("wire") => synth::wire(&args[1..]),
         Some("xmatrix") => synth::xmatrix(),
+        Some("shared") => synth::shared(),
         Some("c17") => {
             // panics of the code under test are caught and logged as data; anything else is a harness failure worth seeing
             std::panic::set_hook(Box::new(|info| {
